@@ -381,7 +381,7 @@ func (u *Universe) otherAddr(s Spec) *refs.Address {
 
 // Build produces the messages of the normalised spec. It panics on harness bugs only.
 func (u *Universe) Build(s Spec) *Built {
-	b := &Built{Spec: s, Ctx: context.Background(), Late: s.Defect == DefEACLHeader}
+	b := &Built{Spec: s, Ctx: context.Background(), Late: s.Late || s.Defect == DefEACLHeader}
 	if s.Trusted {
 		b.Ctx = peer.NewContext(b.Ctx, &peer.Peer{AuthInfo: peerauth.AuthInfo{PublicKey: u.Users[s.Requester].Key.PublicKey()}})
 	}
